@@ -326,6 +326,8 @@ func c15Taint(src ssa.Value) (string, token.Pos) {
 				}
 			case *ssa.Slice:
 				work = append(work, x)
+			case *ssa.IndexAddr:
+				// addressing an element of a (tainted) variadic argument array: the array is followed through its Slice
 			case *ssa.Store:
 				if x.Val != v {
 					continue
